@@ -490,17 +490,22 @@ Proof. intros. unfold relay_nodes. rewrite filter_app, map_app. reflexivity. Qed
 (* ------------------------------------------------------------------------------------------ *)
 (* vanilla spray-and-wait: the budget invariant *)
 
-(* [succ]: nodes other than the destination to which a transmission succeeded so far *)
+(* [succ]: nodes other than the destination to which a transmission succeeded since the bundle
+   entered the store (its current life on this node).  The budget counts these - the peers a copy
+   was handed to - and not the length of the sent list: since fix 772c5cf the sent list of a bundle
+   that came back from a neighbour also holds that neighbour ([excl], at most one node), which is
+   excluded from the selection without having consumed a copy. *)
 Definition vmeta_inv (L dst : N) (m : smeta) (succ : list N) : Prop :=
-  sm_rem m + nlen (sm_sent m) = L
+  sm_rem m + nlen succ = L
   /\ NoDup (sm_sent m)
   /\ ~ In dst (sm_sent m)
-  /\ (forall x, In x (sm_sent m) <-> In x succ)
+  /\ (exists excl, nlen excl <= 1 /\ (forall x, In x excl -> ~ In x succ)
+                   /\ (forall x, In x (sm_sent m) <-> In x succ \/ In x excl))
   /\ NoDup succ
-  /\ (sm_sent m = [] \/ 1 <= sm_rem m).
+  /\ (succ = [] \/ 1 <= sm_rem m).
 
 Definition vinv (L : N) (s : sstate) (succ : list N) : Prop :=
-  (ss_created s = false -> ss_stored s = false /\ ss_meta s = None /\ succ = [])
+  (ss_created s = false -> ss_stored s = false)
   /\ (ss_stored s = true -> ss_meta s <> None)
   /\ (forall m, ss_meta s = Some m -> vmeta_inv L (ss_dst s) m succ)
   /\ nlen succ <= L - 1.
@@ -508,11 +513,16 @@ Definition vinv (L : N) (s : sstate) (succ : list N) : Prop :=
 Lemma vmeta_inv_bound : forall L dst m succ, vmeta_inv L dst m succ -> nlen succ <= L - 1 /\ sm_rem m + nlen succ = L.
 Proof.
   intros L dst m succ (H1 & H2 & H3 & H4 & H5 & H6).
-  assert (Hl : length succ = length (sm_sent m)).
-  { apply Nat.le_antisymm; apply NoDup_incl_length; try assumption; intros x Hx; apply H4; exact Hx. }
-  assert (Hn : nlen succ = nlen (sm_sent m)) by (unfold nlen; rewrite Hl; reflexivity).
-  split; [|lia]. destruct H6 as [H6|H6]; [|lia].
-  rewrite H6 in Hn. rewrite nlen_nil in Hn. lia.
+  split; [|exact H1]. destruct H6 as [H6|H6]; [|lia].
+  rewrite H6, nlen_nil. lia.
+Qed.
+
+Lemma ok_nodes_NoDup : forall chosen, NoDup (map sp_node chosen) -> NoDup (ok_nodes chosen).
+Proof.
+  intros chosen G1. unfold ok_nodes. induction chosen as [|p t IH]; [constructor|].
+  cbn [map] in G1. inversion G1 as [|? ? Hp Ht]; subst. cbn [filter].
+  destruct (sp_fail p); cbn [negb map]; [auto|]. constructor; [|auto].
+  intro Hi. apply Hp. apply (ok_nodes_incl t). exact Hi.
 Qed.
 
 Lemma vanilla_attempt_meta : forall L dst ps m chosen blk succ,
@@ -521,7 +531,7 @@ Lemma vanilla_attempt_meta : forall L dst ps m chosen blk succ,
   (forall p, In p chosen -> sp_node p <> dst) ->
   vmeta_inv L dst (spray_report_failures SprayVanilla blk chosen (vanilla_selected m chosen)) (succ ++ ok_nodes chosen).
 Proof.
-  intros L dst ps m chosen blk succ (H1 & H2 & H3 & H4 & H5 & H6) Hg Hnd.
+  intros L dst ps m chosen blk succ (H1 & H2 & H3 & (excl & E1 & E2 & H4) & H5 & H6) Hg Hnd.
   destruct (vanilla_select_facts _ _ _ Hg) as (G1 & G2 & G3).
   set (m1 := vanilla_selected m chosen).
   assert (Hnd1 : NoDup (sm_sent m1)).
@@ -533,34 +543,35 @@ Proof.
   destruct (report_failures_spec 1 chosen m1 G1 Hnd1 Hin1) as (R1 & R2 & R3 & R4).
   set (m2 := fold_left _ chosen m1) in *.
   pose proof (ok_fail_length chosen) as Hof.
-  assert (Hlen1 : nlen (sm_sent m1) = nlen (sm_sent m) + nlen chosen).
-  { cbn [m1 vanilla_selected sm_sent]. rewrite nlen_app, nlen_map. reflexivity. }
   assert (Hrem1 : sm_rem m1 = sm_rem m - nlen chosen) by reflexivity.
-  assert (Hiff : forall x, In x (sm_sent m2) <-> In x (succ ++ ok_nodes chosen)).
-  { intro x. rewrite R3. cbn [m1 vanilla_selected sm_sent]. rewrite !in_app_iff. rewrite <- H4. split.
-    - intros [[Hx|Hx] Hnf]; [left; exact Hx|]. right. destruct (nodes_split _ _ Hx); [assumption | contradiction].
-    - intros [Hx|Hx].
-      + split; [left; exact Hx|]. intro Hf. apply (G2 x); [apply fail_nodes_incl; exact Hf | exact Hx].
-      + split; [right; apply ok_nodes_incl; exact Hx|]. intro Hf. exact (ok_fail_disjoint _ _ G1 Hx Hf). }
-  repeat split.
-  - destruct G3 as [->|[G3 G4]].
-    + cbn in *. unfold nlen in *. cbn in *. lia.
+  assert (Hiff : forall x, In x (sm_sent m2) <-> In x (succ ++ ok_nodes chosen) \/ In x excl).
+  { intro x. rewrite R3. cbn [m1 vanilla_selected sm_sent]. rewrite !in_app_iff. split.
+    - intros [[Hx|Hx] Hnf].
+      + apply H4 in Hx. destruct Hx as [Hx|Hx]; [left; left; exact Hx | right; exact Hx].
+      + left. right. destruct (nodes_split _ _ Hx); [assumption | contradiction].
+    - intros [[Hx|Hx]|Hx].
+      + split; [left; apply H4; left; exact Hx|]. intro Hf.
+        apply (G2 x); [apply fail_nodes_incl; exact Hf | apply H4; left; exact Hx].
+      + split; [right; apply ok_nodes_incl; exact Hx|]. intro Hf. exact (ok_fail_disjoint _ _ G1 Hx Hf).
+      + split; [left; apply H4; right; exact Hx|]. intro Hf.
+        apply (G2 x); [apply fail_nodes_incl; exact Hf | apply H4; right; exact Hx]. }
+  split; [|split; [|split; [|split; [|split]]]].
+  - rewrite nlen_app. destruct G3 as [->|[G3 G4]].
+    + subst m2 m1. cbn [fold_left vanilla_selected map sm_rem sm_sent ok_nodes filter]. rewrite !nlen_nil. lia.
     + lia.
   - exact R2.
   - intro Hd. apply R3 in Hd. destruct Hd as [Hd _]. cbn [m1 vanilla_selected sm_sent] in Hd.
     apply in_app_or in Hd. destruct Hd as [Hd|Hd]; [contradiction|].
     apply in_map_iff in Hd. destruct Hd as [p [He Hp]]. apply (Hnd p Hp). exact He.
-  - apply Hiff.
-  - apply Hiff.
+  - exists excl. split; [exact E1|]. split; [|exact Hiff].
+    intros x Hx Hs. apply in_app_or in Hs. destruct Hs as [Hs|Hs]; [exact (E2 x Hx Hs)|].
+    apply (G2 x); [apply ok_nodes_incl; exact Hs | apply H4; right; exact Hx].
   - apply NoDup_app_intro.
     + exact H5.
-    + unfold ok_nodes. clear - G1. induction chosen as [|p t IH]; [constructor|].
-      cbn [map] in G1. inversion G1 as [|? ? Hp Ht]; subst. cbn [filter].
-      destruct (sp_fail p); cbn [negb map]; [auto|]. constructor; [|auto].
-      intro Hi. apply Hp. apply (ok_nodes_incl t). exact Hi.
-    + intros x Hx Hx'. apply (G2 x); [apply ok_nodes_incl; exact Hx' | apply H4; exact Hx].
+    + apply ok_nodes_NoDup. exact G1.
+    + intros x Hx Hx'. apply (G2 x); [apply ok_nodes_incl; exact Hx' | apply H4; left; exact Hx].
   - destruct G3 as [Hc|[G3 G4]].
-    + subst chosen. subst m2 m1. cbn [fold_left vanilla_selected map sm_rem sm_sent]. rewrite app_nil_r.
+    + subst chosen. subst m2 m1. cbn [fold_left vanilla_selected map sm_rem sm_sent ok_nodes filter]. rewrite app_nil_r.
       destruct H6 as [H6|H6]; [left; exact H6 | right; rewrite nlen_nil; lia].
     + right. lia.
 Qed.
@@ -589,6 +600,14 @@ Definition hist_wf (h : list (sevent * list N)) : bool := forallb (fun ec => ev_
 Definition ev_originated (e : sevent) : bool :=
   match e with SeCreate origin _ _ _ => origin | _ => true end.
 Definition hist_originated (h : list (sevent * list N)) : bool := forallb (fun ec => ev_originated (fst ec)) h.
+
+(* at most one create event: the bundle enters the store once *)
+Definition ev_is_create (e : sevent) : bool := match e with SeCreate _ _ _ _ => true | _ => false end.
+Fixpoint hist_once (h : list (sevent * list N)) : bool :=
+  match h with
+  | [] => true
+  | ec :: t => if ev_is_create (fst ec) then forallb (fun ec' => negb (ev_is_create (fst ec'))) t else hist_once t
+  end.
 
 (* structural invariant of the metadata, both algorithms *)
 Definition sinv (s : sstate) : Prop :=
@@ -688,7 +707,7 @@ Qed.
 Lemma step_sinv : forall c s e ch s' outs, sinv s -> ev_wf e = true -> spray_step c s e ch = Some (s', outs) -> sinv s'.
 Proof.
   intros c s e ch s' outs Hi Hwf H. destruct e as [origin dst blk prev | cla node fail | cla | cla f | | ]; cbn [spray_step] in H.
-  - destruct (ss_created s); [discriminate|]. eapply attempt_sinv; [|exact H].
+  - destruct (ss_stored s) eqn:Hst; [inversion H; subst; exact Hi|]. eapply attempt_sinv; [|exact H].
     split; [|split]; cbn [ss_created ss_stored ss_meta ss_dst].
     + discriminate.
     + intros _. discriminate.
@@ -714,51 +733,109 @@ Proof.
     eapply IH; [|exact Hw2|exact Hr]. eapply step_sinv; eauto.
 Qed.
 
-(* once created, the destination is fixed; before creation nothing is transmitted *)
+(* a life of the bundle on this node: created stays, the destination is fixed until the bundle
+   enters the store anew; nothing is transmitted before the first creation *)
 Lemma step_frame : forall c s e ch s' outs, sinv s -> spray_step c s e ch = Some (s', outs) ->
-  (ss_created s = true -> ss_created s' = true /\ ss_dst s' = ss_dst s)
+  (ss_created s = true -> ss_created s' = true)
+  /\ (ss_created s = true -> spray_enters s e = false -> ss_dst s' = ss_dst s)
   /\ (outs = [] \/ ss_created s' = true).
 Proof.
   intros c s e ch s' outs (I1 & I2 & I3) H.
-  destruct e as [origin dst blk prev | cla node fail | cla | cla f | | ]; cbn [spray_step] in H.
-  - destruct (ss_created s) eqn:Hc; [discriminate|]. apply attempt_frame in H.
-    cbn [ss_dst ss_created] in H. destruct H as (F1 & F2 & _). split; [discriminate | right; exact F2].
+  destruct e as [origin dst blk prev | cla node fail | cla | cla f | | ]; cbn [spray_step spray_enters] in *.
+  - destruct (ss_stored s) eqn:Hst.
+    + inversion H; subst. split; [auto|]. split; [reflexivity | left; reflexivity].
+    + apply attempt_frame in H. cbn [ss_dst ss_created] in H. destruct H as (F1 & F2 & _).
+      split; [intros _; exact F2|]. split; [intros _ Hf; discriminate | right; exact F2].
   - destruct (existsb _ _); [discriminate|]. apply attempt_frame in H.
-    cbn [set_peers ss_dst ss_created ss_stored] in H. destruct H as (F1 & F2 & _ & _ & F5). split.
-    + intro Hc. split; congruence.
-    + destruct F5 as [F5|F5]; [left; exact F5 | right]. rewrite F2.
-      destruct (ss_created s) eqn:Hc; [reflexivity|]. rewrite (I1 eq_refl) in F5. discriminate.
-  - inversion H; subst. split; [intro Hc; split; [exact Hc | reflexivity] | left; reflexivity].
-  - inversion H; subst. split; [intro Hc; split; [exact Hc | reflexivity] | left; reflexivity].
-  - apply attempt_frame in H. destruct H as (F1 & F2 & _ & _ & F5). split.
-    + intro Hc. split; congruence.
-    + destruct F5 as [F5|F5]; [left; exact F5 | right]. rewrite F2.
-      destruct (ss_created s) eqn:Hc; [reflexivity|]. rewrite (I1 eq_refl) in F5. discriminate.
-  - inversion H; subst. split; [|left; reflexivity].
-    intro Hc. destruct (ss_stored s); split; try exact Hc; reflexivity.
+    cbn [set_peers ss_dst ss_created ss_stored] in H. destruct H as (F1 & F2 & _ & _ & F5).
+    split; [congruence|]. split; [intros; exact F1|].
+    destruct F5 as [F5|F5]; [left; exact F5 | right]. rewrite F2.
+    destruct (ss_created s) eqn:Hc; [reflexivity|]. rewrite (I1 eq_refl) in F5. discriminate.
+  - inversion H; subst. split; [auto|]. split; [reflexivity | left; reflexivity].
+  - inversion H; subst. split; [auto|]. split; [reflexivity | left; reflexivity].
+  - apply attempt_frame in H. destruct H as (F1 & F2 & _ & _ & F5).
+    split; [congruence|]. split; [intros; exact F1|].
+    destruct F5 as [F5|F5]; [left; exact F5 | right]. rewrite F2.
+    destruct (ss_created s) eqn:Hc; [reflexivity|]. rewrite (I1 eq_refl) in F5. discriminate.
+  - inversion H; subst. split; [|split; [|left; reflexivity]].
+    + intro Hc. destruct (ss_stored s); exact Hc.
+    + intros _ _. destruct (ss_stored s); reflexivity.
 Qed.
 
-Lemma run_dst : forall c h s s' outs, sinv s -> hist_wf h = true -> ss_created s = true ->
-  spray_run c s h = Some (s', outs) -> ss_dst s' = ss_dst s /\ ss_created s' = true.
+(* ------------------------------------------------------------------------------------------ *)
+(* [spray_life] and [spray_run] *)
+
+(* same final state; the transmissions of the current life are the tail of all transmissions *)
+Lemma life_run : forall c h s acc s' cur,
+  spray_life c s acc h = Some (s', cur) ->
+  exists o pre, spray_run c s h = Some (s', o) /\ acc ++ o = pre ++ cur.
 Proof.
-  intros c h. induction h as [|[e ch] t IH]; intros s s' outs Hi Hwf Hc H.
-  - cbn in H. inversion H; subst. split; [reflexivity | exact Hc].
-  - cbn [spray_run] in H. cbn [hist_wf forallb fst] in Hwf. apply andb_true_iff in Hwf. destruct Hwf as [Hw1 Hw2].
+  intros c h. induction h as [|[e ch] t IH]; intros s acc s' cur H.
+  - cbn in H. inversion H; subst. exists [], []. split; [reflexivity | apply app_nil_r].
+  - cbn [spray_life] in H. cbn [spray_run].
+    destruct (spray_step c s e ch) as [[s1 o1]|] eqn:Hs; [|discriminate].
+    destruct (IH _ _ _ _ H) as [o2 [pre2 [Hr He]]]. rewrite Hr.
+    destruct (spray_enters s e).
+    + exists (o1 ++ o2), (acc ++ pre2). split; [reflexivity|]. rewrite He, app_assoc. reflexivity.
+    + exists (o1 ++ o2), pre2. split; [reflexivity|]. rewrite app_assoc. exact He.
+Qed.
+
+Lemma run_life : forall c h s acc s' o,
+  spray_run c s h = Some (s', o) -> exists cur, spray_life c s acc h = Some (s', cur).
+Proof.
+  intros c h. induction h as [|[e ch] t IH]; intros s acc s' o H.
+  - cbn in H. inversion H; subst. exists acc. reflexivity.
+  - cbn [spray_run] in H. cbn [spray_life].
     destruct (spray_step c s e ch) as [[s1 o1]|] eqn:Hs; [|discriminate].
     destruct (spray_run c s1 t) as [[s2 o2]|] eqn:Hr; [|discriminate]. inversion H; subst.
-    destruct (step_frame _ _ _ _ _ _ Hi Hs) as [F1 _]. destruct (F1 Hc) as [Hc1 Hd1].
-    destruct (IH s1 s' o2 (step_sinv _ _ _ _ _ _ Hi Hw1 Hs) Hw2 Hc1 Hr) as [Hd Hc']. split; [congruence | exact Hc'].
+    eapply IH. exact Hr.
 Qed.
 
-(* if the run's first step transmitted something, the bundle exists from then on with a fixed destination *)
-Lemma run_outs_dst : forall c s e ch s1 o1 t s' o2, sinv s -> ev_wf e = true -> hist_wf t = true ->
-  spray_step c s e ch = Some (s1, o1) -> spray_run c s1 t = Some (s', o2) ->
-  o1 = [] \/ ss_dst s' = ss_dst s1.
+(* without a create event nothing is forgotten *)
+Lemma life_run_nocreate : forall c h s acc,
+  forallb (fun ec => negb (ev_is_create (fst ec))) h = true ->
+  spray_life c s acc h = match spray_run c s h with Some (s', o) => Some (s', acc ++ o) | None => None end.
 Proof.
-  intros c s e ch s1 o1 t s' o2 Hi Hw1 Hw2 Hs Hr.
-  destruct (step_frame _ _ _ _ _ _ Hi Hs) as [_ [F|F]]; [left; exact F | right].
-  exact (proj1 (run_dst _ _ _ _ _ (step_sinv _ _ _ _ _ _ Hi Hw1 Hs) Hw2 F Hr)).
+  intros c h. induction h as [|[e ch] t IH]; intros s acc Hn.
+  - cbn. rewrite app_nil_r. reflexivity.
+  - cbn [forallb fst] in Hn. apply andb_true_iff in Hn. destruct Hn as [Hn1 Hn2].
+    cbn [spray_life spray_run]. destruct (spray_step c s e ch) as [[s1 o1]|]; [|reflexivity].
+    assert (He : spray_enters s e = false) by (destruct e; try reflexivity; discriminate).
+    rewrite He, (IH _ _ Hn2). destruct (spray_run c s1 t) as [[s2 o2]|]; [|reflexivity].
+    rewrite app_assoc. reflexivity.
 Qed.
+
+Lemma step_unstored : forall c s e ch s' o,
+  ss_stored s = false -> ev_is_create e = false -> spray_step c s e ch = Some (s', o) ->
+  ss_stored s' = false /\ o = [].
+Proof.
+  intros c s e ch s' o Hst He H.
+  destruct e as [origin dst blk prev | cla node fail | cla | cla f | | ]; cbn [spray_step] in H; try discriminate.
+  - destruct (existsb _ _); [discriminate|]. unfold spray_attempt in H.
+    cbn [set_peers ss_stored] in H. rewrite Hst in H. cbn [negb] in H. inversion H; subst. split; [exact Hst | reflexivity].
+  - inversion H; subst. split; [exact Hst | reflexivity].
+  - inversion H; subst. split; [exact Hst | reflexivity].
+  - unfold spray_attempt in H. rewrite Hst in H. cbn [negb] in H. inversion H; subst. split; [exact Hst | reflexivity].
+  - inversion H; subst. rewrite Hst. split; reflexivity.
+Qed.
+
+(* a bundle that enters the store once: its life is the whole history *)
+Lemma life_run_once_gen : forall c h s,
+  ss_stored s = false -> hist_once h = true -> spray_life c s [] h = spray_run c s h.
+Proof.
+  intros c h. induction h as [|[e ch] t IH]; intros s Hst Ho; [reflexivity|].
+  cbn [hist_once fst] in Ho. cbn [spray_life spray_run].
+  destruct (spray_step c s e ch) as [[s1 o1]|] eqn:Hs; [|reflexivity].
+  destruct (ev_is_create e) eqn:He.
+  - assert (Hen : spray_enters s e = true) by (destruct e; try discriminate; cbn; rewrite Hst; reflexivity).
+    rewrite Hen. rewrite (life_run_nocreate _ _ _ _ Ho). reflexivity.
+  - assert (Hen : spray_enters s e = false) by (destruct e; try reflexivity; discriminate).
+    rewrite Hen. destruct (step_unstored _ _ _ _ _ _ Hst He Hs) as [Hst1 ->].
+    cbn [app]. rewrite (IH _ Hst1 Ho). destruct (spray_run c s1 t) as [[s2 o2]|]; reflexivity.
+Qed.
+
+Lemma life_run_once : forall c h, hist_once h = true -> spray_life c spray_init [] h = spray_run c spray_init h.
+Proof. intros c h Ho. apply life_run_once_gen; [reflexivity | exact Ho]. Qed.
 
 (* ------------------------------------------------------------------------------------------ *)
 (* vanilla spray-and-wait: budget over all histories *)
@@ -784,14 +861,14 @@ Proof.
     { unfold relay_nodes. rewrite Ho. rewrite relay_nodes_direct by exact Hd. reflexivity. }
     rewrite Hr, app_nil_r.
     destruct (ss_meta s) as [m|] eqn:Hm; [|exfalso; apply (V2 Hst); reflexivity].
-    pose proof (V3 m eq_refl) as Hmi. destruct Hmi as (M1 & M2 & M3 & M4 & M5 & M6).
+    pose proof (V3 m eq_refl) as Hmi. pose proof Hmi as (M1 & M2 & M3 & M4 & M5 & M6).
     assert (Hsame : spray_report_failures (sc_algo c) (ss_blk s) dests m = m).
     { apply report_failures_noop. intros p Hp. rewrite (Hd p Hp). exact M3. }
     subst s'. cbn [option_map] in *. rewrite Hsame in *.
     split; [|split; [|split]]; cbn [set_meta_stored ss_created ss_stored ss_meta ss_dst].
-    + intro Hcr. rewrite (proj1 (V1 Hcr)) in Hst. discriminate.
+    + intro Hcr. rewrite (V1 Hcr) in Hst. discriminate.
     + intros _. discriminate.
-    + intros m' Hm'. inversion Hm'; subst m'. exact (conj M1 (conj M2 (conj M3 (conj M4 (conj M5 M6))))).
+    + intros m' Hm'. inversion Hm'; subst m'. exact Hmi.
     + exact V4.
   - pose proof (V3 m Hm) as Hmi.
     assert (Hr : relay_nodes (ss_dst s) outs = ok_nodes chosen).
@@ -800,7 +877,7 @@ Proof.
     pose proof (vanilla_attempt_meta L (ss_dst s) (ss_peers s) m chosen (ss_blk s) succ Hmi Hg
                   (fun p Hp => proj2 (Hc p Hp))) as Hnew.
     subst s'. split; [|split; [|split]]; cbn [set_meta_stored ss_created ss_stored ss_meta ss_dst].
-    + intro Hcr. rewrite (proj1 (V1 Hcr)) in Hst. discriminate.
+    + intro Hcr. rewrite (V1 Hcr) in Hst. discriminate.
     + intros _. discriminate.
     + intros m' Hm'. inversion Hm'; subst m'. exact Hnew.
     + exact (proj1 (vmeta_inv_bound _ _ _ _ Hnew)).
@@ -810,25 +887,32 @@ Qed.
 Lemma vinv_set_peers : forall L s ps succ, vinv L s succ -> vinv L (set_peers s ps) succ.
 Proof. intros L s ps succ H. exact H. Qed.
 
+(* one event.  When the bundle enters the store the count starts anew: NotifyNewBundle sets the
+   full budget L whatever was handed out in an earlier life; the previous node, if the bundle
+   names one, is in the sent list from the start and has not consumed a copy *)
 Lemma vinv_step : forall L s e ch s' outs succ,
-  vinv L s succ -> ev_originated e = true -> spray_step (vconf L) s e ch = Some (s', outs) ->
-  vinv L s' (succ ++ relay_nodes (ss_dst s') outs).
+  vinv L s succ -> ev_originated e = true -> ev_wf e = true -> spray_step (vconf L) s e ch = Some (s', outs) ->
+  vinv L s' ((if spray_enters s e then [] else succ) ++ relay_nodes (ss_dst s') outs).
 Proof.
-  intros L s e ch s' outs succ Hv Ho H.
-  destruct e as [origin dst blk prev | cla node fail | cla | cla f | | ]; cbn [spray_step] in H.
-  - destruct (ss_created s) eqn:Hc; [discriminate|].
-    destruct Hv as (V1 & V2 & V3 & V4). destruct (V1 Hc) as (_ & _ & Hsucc). subst succ.
-    cbn [ev_originated] in Ho. subst origin.
-    pose proof (attempt_frame _ _ _ _ _ H) as (F1 & _). cbn [ss_dst] in F1. rewrite F1.
-    match type of H with spray_attempt _ ?s0 _ = _ => change dst with (ss_dst s0) end.
-    eapply (vinv_attempt L (vconf L)); [reflexivity | | exact H].
-    split; [|split; [|split]]; cbn [ss_created ss_stored ss_meta ss_dst vconf spray_notify sc_algo sc_L].
-    + discriminate.
-    + intros _. discriminate.
-    + intros m Hm. inversion Hm; subst m. unfold vmeta_inv. cbn [sm_rem sm_sent].
-      split; [rewrite nlen_nil; lia|]. split; [constructor|]. split; [intros []|].
-      split; [intro x; tauto|]. split; [constructor|]. left. reflexivity.
-    + rewrite nlen_nil. lia.
+  intros L s e ch s' outs succ Hv Ho Hwf H.
+  destruct e as [origin dst blk prev | cla node fail | cla | cla f | | ]; cbn [spray_step spray_enters] in *.
+  - destruct (ss_stored s) eqn:Hst; cbn [negb].
+    + inversion H; subst. cbn [relay_nodes filter map]. rewrite app_nil_r. exact Hv.
+    + cbn [ev_originated] in Ho. subst origin.
+      pose proof (attempt_frame _ _ _ _ _ H) as (F1 & _). cbn [ss_dst] in F1. rewrite F1.
+      match type of H with spray_attempt _ ?s0 _ = _ => change dst with (ss_dst s0) end.
+      eapply (vinv_attempt L (vconf L)); [reflexivity | | exact H].
+      destruct (notify_sent_ok (vconf L) true dst blk prev Hwf) as [Hnd Hdn].
+      cbn [vconf spray_notify sc_algo sc_L sm_sent] in Hnd, Hdn.
+      split; [|split; [|split]]; cbn [ss_created ss_stored ss_meta ss_dst vconf spray_notify sc_algo sc_L].
+      * discriminate.
+      * intros _. discriminate.
+      * intros m Hm. inversion Hm; subst m. unfold vmeta_inv. cbn [sm_rem sm_sent].
+        split; [rewrite nlen_nil; lia|]. split; [exact Hnd|]. split; [exact Hdn|].
+        split; [|split; [constructor | left; reflexivity]].
+        exists (opt_list prev). split; [destruct prev; unfold nlen; cbn; lia|].
+        split; [intros x _ []|]. intro x. cbn [In]. tauto.
+      * rewrite nlen_nil. lia.
   - destruct (existsb _ _); [discriminate|].
     pose proof (attempt_frame _ _ _ _ _ H) as (F1 & _). rewrite F1.
     eapply (vinv_attempt L (vconf L)); [reflexivity | | exact H]. apply vinv_set_peers. exact Hv.
@@ -840,7 +924,7 @@ Proof.
     destruct (ss_stored s) eqn:Hst; [exact Hv|].
     destruct Hv as (V1 & V2 & V3 & V4).
     split; [|split; [|split]]; cbn [set_meta_stored ss_created ss_stored ss_meta ss_dst].
-    + intro Hc. destruct (V1 Hc) as (_ & _ & Hs). repeat split; auto.
+    + intros _. reflexivity.
     + discriminate.
     + intros m Hm. discriminate.
     + exact V4.
@@ -849,62 +933,85 @@ Qed.
 Lemma vinv_sinv : forall L s succ, vinv L s succ -> sinv s.
 Proof.
   intros L s succ (V1 & V2 & V3 & V4). split; [|split].
-  - intro Hc. exact (proj1 (V1 Hc)).
+  - exact V1.
   - exact V2.
   - intros m Hm. destruct (V3 m Hm) as (M1 & M2 & M3 & _). split; assumption.
 Qed.
 
-Lemma vrun_dst : forall L t s1 s' o2 succ,
-  vinv L s1 succ -> ss_created s1 = true -> hist_originated t = true ->
-  spray_run (vconf L) s1 t = Some (s', o2) -> ss_dst s' = ss_dst s1.
+(* over a history: [acc] = the transmissions of the bundle's current life *)
+Lemma vinv_life : forall L h s acc s' outs,
+  vinv L s (relay_nodes (ss_dst s) acc) -> (acc = [] \/ ss_created s = true) ->
+  hist_originated h = true -> hist_wf h = true ->
+  spray_life (vconf L) s acc h = Some (s', outs) ->
+  vinv L s' (relay_nodes (ss_dst s') outs).
 Proof.
-  intros L t. induction t as [|[e ch] t IH]; intros s1 s' o2 succ Hv F Ho H.
-  - cbn in H. inversion H; subst. reflexivity.
-  - cbn [spray_run] in H. cbn [hist_originated forallb fst] in Ho. apply andb_true_iff in Ho. destruct Ho as [Ho1 Ho2].
-    destruct (spray_step (vconf L) s1 e ch) as [[s3 o3]|] eqn:Hs; [|discriminate].
-    destruct (spray_run (vconf L) s3 t) as [[s4 o4]|] eqn:Hr; [|discriminate]. inversion H; subst.
-    destruct (step_frame _ _ _ _ _ _ (vinv_sinv _ _ _ Hv) Hs) as [F1 _]. destruct (F1 F) as [Fc Fd].
-    rewrite <- Fd. eapply IH; [eapply vinv_step; eauto | exact Fc | exact Ho2 | exact Hr].
-Qed.
-
-(* vanilla: an originated bundle ignores the PreviousNodeBlock, so no well-formedness is needed *)
-Lemma vinv_run : forall L h s s' outs succ,
-  vinv L s succ -> hist_originated h = true -> spray_run (vconf L) s h = Some (s', outs) ->
-  vinv L s' (succ ++ relay_nodes (ss_dst s') outs).
-Proof.
-  intros L h. induction h as [|[e ch] t IH]; intros s s' outs succ Hv Ho H.
-  - cbn in H. inversion H; subst. cbn [relay_nodes filter map]. rewrite app_nil_r. exact Hv.
-  - cbn [spray_run] in H. cbn [hist_originated forallb fst] in Ho. apply andb_true_iff in Ho. destruct Ho as [Ho1 Ho2].
+  intros L h. induction h as [|[e ch] t IH]; intros s acc s' outs Hv Hacc Ho Hwf H.
+  - cbn in H. inversion H; subst. exact Hv.
+  - cbn [spray_life] in H.
+    cbn [hist_originated forallb fst] in Ho. apply andb_true_iff in Ho. destruct Ho as [Ho1 Ho2].
+    cbn [hist_wf forallb fst] in Hwf. apply andb_true_iff in Hwf. destruct Hwf as [Hw1 Hw2].
     destruct (spray_step (vconf L) s e ch) as [[s1 o1]|] eqn:Hs; [|discriminate].
-    destruct (spray_run (vconf L) s1 t) as [[s2 o2]|] eqn:Hr; [|discriminate]. inversion H; subst.
-    pose proof (vinv_step _ _ _ _ _ _ _ Hv Ho1 Hs) as Hv1.
-    pose proof (IH _ _ _ _ Hv1 Ho2 Hr) as Hv2.
-    rewrite relay_nodes_app, app_assoc.
-    (* the destination is the same in s1 and s' unless o1 is empty *)
-    assert (Hd : relay_nodes (ss_dst s1) o1 = relay_nodes (ss_dst s') o1).
-    { destruct (step_frame _ _ _ _ _ _ (vinv_sinv _ _ _ Hv) Hs) as [_ [F|F]]; [subst o1; reflexivity|].
-      rewrite (vrun_dst _ _ _ _ _ _ Hv1 F Ho2 Hr). reflexivity. }
-    rewrite <- Hd. exact Hv2.
+    pose proof (vinv_step _ _ _ _ _ _ _ Hv Ho1 Hw1 Hs) as Hv1.
+    destruct (step_frame _ _ _ _ _ _ (vinv_sinv _ _ _ Hv) Hs) as (F1 & F2 & F3).
+    eapply IH; [| |exact Ho2|exact Hw2|exact H]; destruct (spray_enters s e) eqn:He.
+    + exact Hv1.
+    + rewrite relay_nodes_app.
+      assert (Hd : relay_nodes (ss_dst s1) acc = relay_nodes (ss_dst s) acc).
+      { destruct Hacc as [->|Hc]; [reflexivity | rewrite (F2 Hc eq_refl); reflexivity]. }
+      rewrite Hd. exact Hv1.
+    + exact F3.
+    + destruct F3 as [->|F3]; [|right; exact F3]. rewrite app_nil_r.
+      destruct Hacc as [Ha|Hc]; [left; exact Ha | right; exact (F1 Hc)].
 Qed.
 
 Lemma spray_budget : forall L h s outs,
-  spray_run (vconf L) spray_init h = Some (s, outs) -> hist_originated h = true ->
+  spray_life (vconf L) spray_init [] h = Some (s, outs) -> hist_originated h = true -> hist_wf h = true ->
   spray_relayed (ss_dst s) outs <= L - 1.
 Proof.
-  intros L h s outs H Ho. pose proof (vinv_run L h _ _ _ [] (vinv_init L) Ho H) as (_ & _ & _ & V4).
-  cbn [app] in V4. rewrite spray_relayed_nodes. exact V4.
+  intros L h s outs H Ho Hwf.
+  pose proof (vinv_life L h spray_init [] _ _ (vinv_init L) (or_introl eq_refl) Ho Hwf H) as (_ & _ & _ & V4).
+  rewrite spray_relayed_nodes. exact V4.
 Qed.
 
 Lemma spray_accounting : forall L h s outs m,
-  spray_run (vconf L) spray_init h = Some (s, outs) -> hist_originated h = true ->
+  spray_life (vconf L) spray_init [] h = Some (s, outs) -> hist_originated h = true -> hist_wf h = true ->
   ss_meta s = Some m ->
   sm_rem m + spray_relayed (ss_dst s) outs = L /\ 1 <= sm_rem m + (if L =? 0 then 1 else 0).
 Proof.
-  intros L h s outs m H Ho Hm. pose proof (vinv_run L h _ _ _ [] (vinv_init L) Ho H) as (_ & _ & V3 & _).
-  cbn [app] in V3. specialize (V3 m Hm). rewrite spray_relayed_nodes.
+  intros L h s outs m H Ho Hwf Hm.
+  pose proof (vinv_life L h spray_init [] _ _ (vinv_init L) (or_introl eq_refl) Ho Hwf H) as (_ & _ & V3 & _).
+  specialize (V3 m Hm). rewrite spray_relayed_nodes.
   pose proof (vmeta_inv_bound _ _ _ _ V3) as [B1 B2]. split; [exact B2|].
   destruct V3 as (M1 & _ & _ & _ & _ & M6). destruct (N.eqb_spec L 0); [lia|].
   destruct M6 as [M6|M6]; [|lia]. rewrite M6, nlen_nil in M1. lia.
+Qed.
+
+(* the sent list of the current life: exactly the peers a copy was handed to, and at most one
+   further node - the previous node of a bundle that was received - which took no copy (by
+   [spray_accounting] only the former are paid for) *)
+Lemma spray_sent_list : forall L h s outs m,
+  spray_life (vconf L) spray_init [] h = Some (s, outs) -> hist_originated h = true -> hist_wf h = true ->
+  ss_meta s = Some m ->
+  exists excl, nlen excl <= 1
+    /\ (forall x, In x excl -> ~ In x (relay_nodes (ss_dst s) outs))
+    /\ (forall x, In x (sm_sent m) <-> In x (relay_nodes (ss_dst s) outs) \/ In x excl)
+    /\ nlen (sm_sent m) = spray_relayed (ss_dst s) outs + nlen excl.
+Proof.
+  intros L h s outs m H Ho Hwf Hm.
+  pose proof (vinv_life L h spray_init [] _ _ (vinv_init L) (or_introl eq_refl) Ho Hwf H) as (_ & _ & V3 & _).
+  destruct (V3 m Hm) as (M1 & M2 & M3 & (excl & E1 & E2 & M4) & M5 & M6).
+  exists excl. split; [exact E1|]. split; [exact E2|]. split; [exact M4|].
+  rewrite spray_relayed_nodes.
+  assert (Hex : NoDup excl).
+  { destruct excl as [|a [|b t]]; [constructor | constructor; [intros [] | constructor] |].
+    exfalso. unfold nlen in E1. cbn [length] in E1. lia. }
+  assert (Hnd : NoDup (relay_nodes (ss_dst s) outs ++ excl)).
+  { apply NoDup_app_intro; [exact M5 | exact Hex |]. intros x Hx Hx'. exact (E2 x Hx' Hx). }
+  assert (Hl : length (sm_sent m) = length (relay_nodes (ss_dst s) outs ++ excl)).
+  { apply Nat.le_antisymm; apply NoDup_incl_length; try assumption; intros x Hx.
+    - apply in_or_app. apply M4. exact Hx.
+    - apply M4. apply in_app_or. exact Hx. }
+  unfold nlen. rewrite Hl, app_length. lia.
 Qed.
 
 (* ------------------------------------------------------------------------------------------ *)
@@ -1031,54 +1138,51 @@ Qed.
 
 Definition spray_initial (L : N) (s : sstate) : N := match ss_blk s with Some k => k | None => L end.
 
+(* [handed]: copies handed over successfully since the bundle entered the store *)
 Definition binv (L : N) (s : sstate) (handed : N) : Prop :=
   sinv s
-  /\ (ss_created s = false -> handed = 0)
   /\ (forall m, ss_meta s = Some m -> sm_rem m + handed = spray_initial L s).
 
 Lemma binv_attempt : forall L s ch s' outs handed,
   binv L s handed -> spray_attempt (bconf L) s ch = Some (s', outs) ->
   binv L s' (handed + bspray_handed (ss_dst s) outs).
 Proof.
-  intros L s ch s' outs handed (Hi & B1 & B2) H.
+  intros L s ch s' outs handed (Hi & B2) H.
   pose proof (attempt_sinv _ _ _ _ _ Hi H) as Hi'.
   pose proof (attempt_frame _ _ _ _ _ H) as (F1 & F2 & _ & F4 & F5).
   destruct (ss_meta s) as [m|] eqn:Hm.
   - destruct (binary_attempt_conserves (bconf L) s ch s' outs m eq_refl Hi Hm H) as [m' [Hm' Hc]].
-    split; [exact Hi'|]. split.
-    + intro Hcr. rewrite F2 in Hcr. destruct F5 as [F5|F5].
-      * subst outs. rewrite (B1 Hcr). reflexivity.
-      * destruct Hi as (I1 & _). rewrite (I1 Hcr) in F5. discriminate.
-    + intros m2 Hm2. rewrite Hm' in Hm2. inversion Hm2; subst m2.
-      unfold spray_initial. rewrite F4. specialize (B2 m eq_refl). unfold spray_initial in B2. lia.
+    split; [exact Hi'|].
+    intros m2 Hm2. rewrite Hm' in Hm2. inversion Hm2; subst m2.
+    unfold spray_initial. rewrite F4. specialize (B2 m eq_refl). unfold spray_initial in B2. lia.
   - assert (Hidle : s' = s /\ outs = []).
     { apply attempt_cases in H. destruct Hi as (I1 & I2 & I3).
       destruct H as [Hs Ho | dests Hne Hd Hst Ho Hs | m0 chosen Ha Hst Hm0 Hc Hg Ho Hs | m0 chosen Ha Hst Hm0 Hc Hg Ho Hs];
         [split; assumption | exfalso; apply (I2 Hst); exact Hm | congruence | congruence]. }
     destruct Hidle as [-> ->]. cbn [bspray_handed fold_right]. rewrite N.add_0_r.
-    split; [exact Hi|]. split; [exact B1|]. intros m0 Hm0. congruence.
+    split; [exact Hi|]. intros m0 Hm0. congruence.
 Qed.
 
 Lemma binv_step : forall L s e ch s' outs handed,
   binv L s handed -> ev_wf e = true -> spray_step (bconf L) s e ch = Some (s', outs) ->
-  binv L s' (handed + bspray_handed (ss_dst s') outs).
+  binv L s' ((if spray_enters s e then 0 else handed) + bspray_handed (ss_dst s') outs).
 Proof.
   intros L s e ch s' outs handed Hb Hwf H.
-  pose proof Hb as (Hi & B1 & B2).
+  pose proof Hb as (Hi & B2).
   pose proof (step_sinv _ _ _ _ _ _ Hi Hwf H) as Hi'.
-  destruct e as [origin dst blk prev | cla node fail | cla | cla f | | ]; cbn [spray_step] in H.
-  - destruct (ss_created s) eqn:Hc; [discriminate|]. rewrite (B1 eq_refl).
-    pose proof (attempt_frame _ _ _ _ _ H) as (F1 & _). cbn [ss_dst] in F1. rewrite F1.
-    match type of H with spray_attempt _ ?s0 _ = _ => change dst with (ss_dst s0) end.
-    eapply binv_attempt; [|exact H].
-    split; [|split]; cbn [ss_created ss_meta].
-    + split; [|split]; cbn [ss_created ss_stored ss_meta ss_dst].
-      * discriminate.
-      * intros _. discriminate.
-      * intros m Hm. inversion Hm; subst m. apply notify_sent_ok. exact Hwf.
-    + discriminate.
-    + intros m Hm. inversion Hm; subst m. unfold spray_initial, spray_notify. cbn [bconf sc_algo sc_L ss_blk].
-      destruct blk; cbn [sm_rem]; lia.
+  destruct e as [origin dst blk prev | cla node fail | cla | cla f | | ]; cbn [spray_step spray_enters] in *.
+  - destruct (ss_stored s) eqn:Hst; cbn [negb].
+    + inversion H; subst. cbn [bspray_handed fold_right]. rewrite N.add_0_r. exact Hb.
+    + pose proof (attempt_frame _ _ _ _ _ H) as (F1 & _). cbn [ss_dst] in F1. rewrite F1.
+      match type of H with spray_attempt _ ?s0 _ = _ => change dst with (ss_dst s0) end.
+      eapply binv_attempt; [|exact H].
+      split; cbn [ss_created ss_meta].
+      * split; [|split]; cbn [ss_created ss_stored ss_meta ss_dst].
+        -- discriminate.
+        -- intros _. discriminate.
+        -- intros m Hm. inversion Hm; subst m. apply notify_sent_ok. exact Hwf.
+      * intros m Hm. inversion Hm; subst m. unfold spray_initial, spray_notify. cbn [bconf sc_algo sc_L ss_blk].
+        destruct blk; cbn [sm_rem]; lia.
   - destruct (existsb _ _); [discriminate|].
     pose proof (attempt_frame _ _ _ _ _ H) as (F1 & _). rewrite F1.
     eapply binv_attempt; [|exact H]. exact Hb.
@@ -1088,35 +1192,42 @@ Proof.
     eapply binv_attempt; [exact Hb | exact H].
   - inversion H; subst. cbn [bspray_handed fold_right]. rewrite N.add_0_r.
     destruct (ss_stored s) eqn:Hst; [exact Hb|].
-    split; [exact Hi'|]. split; [exact B1|]. intros m Hm. cbn in Hm. discriminate.
+    split; [exact Hi'|]. intros m Hm. cbn in Hm. discriminate.
 Qed.
 
-Lemma binv_run : forall L h s s' outs handed,
-  binv L s handed -> hist_wf h = true -> spray_run (bconf L) s h = Some (s', outs) ->
-  binv L s' (handed + bspray_handed (ss_dst s') outs).
+Lemma binv_life : forall L h s acc s' outs,
+  binv L s (bspray_handed (ss_dst s) acc) -> (acc = [] \/ ss_created s = true) ->
+  hist_wf h = true -> spray_life (bconf L) s acc h = Some (s', outs) ->
+  binv L s' (bspray_handed (ss_dst s') outs).
 Proof.
-  intros L h. induction h as [|[e ch] t IH]; intros s s' outs handed Hb Hwf H.
-  - cbn in H. inversion H; subst. cbn [bspray_handed fold_right]. rewrite N.add_0_r. exact Hb.
-  - cbn [spray_run] in H. cbn [hist_wf forallb fst] in Hwf. apply andb_true_iff in Hwf. destruct Hwf as [Hw1 Hw2].
+  intros L h. induction h as [|[e ch] t IH]; intros s acc s' outs Hb Hacc Hwf H.
+  - cbn in H. inversion H; subst. exact Hb.
+  - cbn [spray_life] in H.
+    cbn [hist_wf forallb fst] in Hwf. apply andb_true_iff in Hwf. destruct Hwf as [Hw1 Hw2].
     destruct (spray_step (bconf L) s e ch) as [[s1 o1]|] eqn:Hs; [|discriminate].
-    destruct (spray_run (bconf L) s1 t) as [[s2 o2]|] eqn:Hr; [|discriminate]. inversion H; subst.
     pose proof (binv_step _ _ _ _ _ _ _ Hb Hw1 Hs) as Hb1.
-    pose proof (IH _ _ _ _ Hb1 Hw2 Hr) as Hb2.
-    rewrite bspray_handed_app, N.add_assoc.
-    assert (Hd : bspray_handed (ss_dst s1) o1 = bspray_handed (ss_dst s') o1).
-    { destruct (run_outs_dst _ _ _ _ _ _ _ _ _ (proj1 Hb) Hw1 Hw2 Hs Hr) as [F|F]; [subst o1; reflexivity | rewrite F; reflexivity]. }
-    rewrite <- Hd. exact Hb2.
+    destruct (step_frame _ _ _ _ _ _ (proj1 Hb) Hs) as (F1 & F2 & F3).
+    eapply IH; [| |exact Hw2|exact H]; destruct (spray_enters s e) eqn:He.
+    + rewrite N.add_0_l in Hb1. exact Hb1.
+    + rewrite bspray_handed_app.
+      assert (Hd : bspray_handed (ss_dst s1) acc = bspray_handed (ss_dst s) acc).
+      { destruct Hacc as [->|Hc]; [reflexivity | rewrite (F2 Hc eq_refl); reflexivity]. }
+      rewrite Hd. exact Hb1.
+    + exact F3.
+    + destruct F3 as [->|F3]; [|right; exact F3]. rewrite app_nil_r.
+      destruct Hacc as [Ha|Hc]; [left; exact Ha | right; exact (F1 Hc)].
 Qed.
 
 Lemma binv_init : forall L, binv L spray_init 0.
-Proof. intro L. split; [exact sinv_init|]. split; [reflexivity|]. intros m Hm. cbn in Hm. discriminate. Qed.
+Proof. intro L. split; [exact sinv_init|]. intros m Hm. cbn in Hm. discriminate. Qed.
 
 Lemma bspray_conservation : forall L h s outs m,
-  spray_run (bconf L) spray_init h = Some (s, outs) -> hist_wf h = true -> ss_meta s = Some m ->
+  spray_life (bconf L) spray_init [] h = Some (s, outs) -> hist_wf h = true -> ss_meta s = Some m ->
   sm_rem m + bspray_handed (ss_dst s) outs = spray_initial L s.
 Proof.
-  intros L h s outs m H Hwf Hm. pose proof (binv_run L h _ _ _ 0 (binv_init L) Hwf H) as (_ & _ & B).
-  rewrite N.add_0_l in B. exact (B m Hm).
+  intros L h s outs m H Hwf Hm.
+  pose proof (binv_life L h spray_init [] _ _ (binv_init L) (or_introl eq_refl) Hwf H) as (_ & B).
+  exact (B m Hm).
 Qed.
 
 (* every reachable state satisfies the structural invariant (both algorithms) *)
